@@ -250,7 +250,8 @@ pub fn c04_long_sessions(pools: &Pools, seed: u64, thorough: bool, r: &mut Repor
             r.inconclusive.push(format!("C04 long session: cannot build tokens for {}", p.name()));
             continue;
         }
-        let n = if thorough { 20_000 } else if p == P::V3L || p == P::V1L { 1200 } else { 3000 };
+        // thorough: beyond any 16-bit call counter on the fast protocols
+        let n = if thorough { if matches!(p, P::V4L | P::V2L | P::V4P | P::V2P) { 70_000 } else { 20_000 } } else if p == P::V3L || p == P::V1L { 1200 } else { 3000 };
         for (batteries, dp) in [(false, false), (true, true)] {
             let mut steps = Vec::with_capacity(n);
             let mut expect = Vec::with_capacity(n);
@@ -751,7 +752,7 @@ pub fn replay_c04(case: &Value) -> Report {
     r
 }
 
-pub const RULE_C04: &str = "per protocol 24 (thorough 1500) authentic tokens built at core/generic/batteries layer (footer none/text/empty, assertion none/text) are presented at the same layer under every single-bit neighbour of the key (all 256 bits of symmetric and Ed25519 public keys, all 392 bits of the compressed P-384 point, all bits of the RSA public-key DER), all-zero, all-one, 50 random (1500 for local tokens whose plaintext is 0-2 bytes, incl. the claim-less '{}' of the generic builder: garbage from an unauthenticated decryption is well-formed only when short), rotated/reversed/half-zeroed keys, every other pool key, and for v3.public the ECDSA 'duplicate-signature' keys recovered from the token's own signature over the specified digest and over five binding-free digest variants (the signer's key must be the only recovered key that is accepted); NESTED parser pairs (160, thorough 2000: a second parser object of any protocol/layer is created, used and dropped in the middle of another parser's session on the same thread; both must answer as they do alone); parser sessions incl. LONG ones (one parser object, 3000 (thorough 20000) parses of right-key / other-key / one-character-changed tokens in a seeded order); oracle: any Ok under another key is a violation (a key that fails to parse counts as 'fails'); distinct_nontrivial = distinct (protocol, layer, key class, rejection variant)";
+pub const RULE_C04: &str = "per protocol 24 (thorough 1500) authentic tokens built at core/generic/batteries layer (footer none/text/empty, assertion none/text) are presented at the same layer under every single-bit neighbour of the key (all 256 bits of symmetric and Ed25519 public keys, all 392 bits of the compressed P-384 point, all bits of the RSA public-key DER), all-zero, all-one, 50 random (1500 for local tokens whose plaintext is 0-2 bytes, incl. the claim-less '{}' of the generic builder: garbage from an unauthenticated decryption is well-formed only when short), rotated/reversed/half-zeroed keys, every other pool key, and for v3.public the ECDSA 'duplicate-signature' keys recovered from the token's own signature over the specified digest and over five binding-free digest variants (the signer's key must be the only recovered key that is accepted); NESTED parser pairs (160, thorough 2000: a second parser object of any protocol/layer is created, used and dropped in the middle of another parser's session on the same thread; both must answer as they do alone); parser sessions incl. LONG ones (one parser object, 3000 (thorough 20000-70000) parses of right-key / other-key / one-character-changed tokens in a seeded order); oracle: any Ok under another key is a violation (a key that fails to parse counts as 'fails'); distinct_nontrivial = distinct (protocol, layer, key class, rejection variant)";
 
 // ==========================================================================================
 // C05
